@@ -6,6 +6,14 @@ ROOT = "/verif"
 
 # id -> dict(engine, category, text, note, technique, design_ref)
 CHECKS = {
+    "C04": dict(
+        engine="comp",
+        category="exploration",
+        technique="property testing of frame handlers with hostile field values in an isolated child process under a per-call allocation limit and CPU watchdog (cost oracle) plus an RFC 9000 verdict table; exhaustive boundary grids",
+        text="A short legitimate history (packets sent / received / acked) is followed by one hostile but well-formed frame or packet number whose fields are drawn boundary-biased from [0, 2^62): ACK (0-64 ranges), NEW_CONNECTION_ID, RETIRE_CONNECTION_ID, MAX_*, STREAM, RESET_STREAM, STOP_SENDING, STREAMS_BLOCKED, CRYPTO and truncated packet numbers of every width. The frame is encoded, parsed by the real FrameReader and run through the real handlers in the connection's dispatch order inside a child process with an allocation limit of 64 KiB + 64 x (frame bytes + records held) and a 1 s CPU watchdog per call: a refused allocation or runaway call is the observation 'unbounded'. Verdicts are compared with the RFC table (unsent ACK -> PROTOCOL_VIOLATION, negative range -> FRAME_ENCODING, beyond limits -> FLOW_CONTROL / STREAM_LIMIT / STREAM_STATE / FINAL_SIZE / CONNECTION_ID_LIMIT) and accepted frames with the model state. 5.4k grid cases exhaustively + 12k (2.2M thorough) random.",
+        note="The dispatcher order and flow-control glue of qconnection/src/space*.rs are line-for-line copies inside the harness (qconnection is not linked): a repair there must be mirrored. Cost constants are empirical envelopes (>=16x above clean-tree maxima for in-domain inputs): growth with the attacker's number is detected, small constant regressions are not.",
+        design_ref="DESIGN.md §3 C04",
+    ),
     "C01": dict(
         engine="comp",
         category="exploration",
